@@ -3,11 +3,412 @@
 package mimetype
 
 import (
+	"bytes"
+	"fmt"
+	"strconv"
+	"strings"
+
 	"github.com/gabriel-vasile/mimetype/internal/magic"
 )
 
 func vfDetectorByName(name string) magic.Detector { return magic.VerifDetectors[name] }
 
-func (g *vfGen) runMore(slice string) bool { return false }
+// ---------- tree snapshots (Extend is global state) ----------
 
-func vfExecMore(f []string, op string) (string, bool) { return "", false }
+type vfSnap struct {
+	nodes    []*MIME
+	children [][]*MIME
+}
+
+var vfBuiltin *vfSnap
+
+func vfSnapshot() *vfSnap {
+	s := &vfSnap{}
+	var rec func(m *MIME)
+	rec = func(m *MIME) {
+		s.nodes = append(s.nodes, m)
+		s.children = append(s.children, append([]*MIME{}, m.children...))
+		for _, c := range m.children {
+			rec(c)
+		}
+	}
+	rec(root)
+	return s
+}
+
+func (s *vfSnap) restore() {
+	mu.Lock()
+	defer mu.Unlock()
+	for i, n := range s.nodes {
+		n.children = append([]*MIME{}, s.children[i]...)
+	}
+}
+
+func vfNodeAt(path string) *MIME {
+	m := root
+	if path == "r" {
+		return m
+	}
+	for _, p := range strings.Split(path, ".") {
+		i, _ := strconv.Atoi(p)
+		if i < 0 || i >= len(m.children) {
+			return nil
+		}
+		m = m.children[i]
+	}
+	return m
+}
+
+// predicate families the driver can also evaluate
+func vfPred(id string) func([]byte, uint32) bool {
+	switch {
+	case id == "always":
+		return func([]byte, uint32) bool { return true }
+	case id == "never":
+		return func([]byte, uint32) bool { return false }
+	case strings.HasPrefix(id, "prefix-"):
+		p := vfUnhex(id[7:])
+		return func(raw []byte, _ uint32) bool { return bytes.HasPrefix(raw, p) }
+	case strings.HasPrefix(id, "contains-"):
+		p := vfUnhex(id[9:])
+		return func(raw []byte, _ uint32) bool { return bytes.Contains(raw, p) }
+	case strings.HasPrefix(id, "lenGt-"):
+		k, _ := strconv.Atoi(id[6:])
+		return func(raw []byte, _ uint32) bool { return len(raw) > k }
+	}
+	return nil
+}
+
+// script: call;call;...   call = path:pred:mimehex:exthex:alias+alias (aliases hex, "~" none)
+func vfApplyScript(script string) error {
+	if script == "~" {
+		return nil
+	}
+	for _, c := range strings.Split(script, ";") {
+		f := strings.Split(c, ":")
+		if len(f) != 5 {
+			return fmt.Errorf("bad call %q", c)
+		}
+		n := vfNodeAt(f[0])
+		pred := vfPred(f[1])
+		if n == nil || pred == nil {
+			return fmt.Errorf("bad call %q", c)
+		}
+		var aliases []string
+		if f[4] != "~" {
+			for _, a := range strings.Split(f[4], "+") {
+				aliases = append(aliases, string(vfUnhex(a)))
+			}
+		}
+		if f[0] == "r" {
+			Extend(pred, string(vfUnhex(f[2])), string(vfUnhex(f[3])), aliases...)
+		} else {
+			n.Extend(pred, string(vfUnhex(f[2])), string(vfUnhex(f[3])), aliases...)
+		}
+	}
+	return nil
+}
+
+func vfMIMEStr(m *MIME) string {
+	if m == nil {
+		return "NIL"
+	}
+	return vfHex([]byte(m.mime)) + "|" + vfHex([]byte(m.extension))
+}
+
+func vfExecMore(f []string, op string) (string, bool) {
+	switch f[0] {
+	case "xwalk": // xwalk script hex lim
+		if vfBuiltin == nil {
+			vfBuiltin = vfSnapshot()
+		}
+		vfBuiltin.restore()
+		defer vfBuiltin.restore()
+		data := vfUnhex(f[2])
+		lim64, _ := strconv.ParseUint(f[3], 10, 32)
+		lim := uint32(lim64)
+		SetLimit(lim)
+		before := Detect(data)
+		beforeStr := vfChain(before) + " " + before.String()
+		if err := vfApplyScript(f[1]); err != nil {
+			return op + " => BADSCRIPT", true
+		}
+		in, buf := vfExact(data)
+		m := Detect(in)
+		res := vfChain(m) + " " + vfHex([]byte(m.String()))
+		if !buf.intact() {
+			res += " MODIFIED"
+		}
+		if vfChain(before)+" "+before.String() != beforeStr {
+			res += " EARLIER-RESULT-CHANGED"
+		}
+		hdr, _ := vfExact(vfHeader(data, lim))
+		var vb strings.Builder
+		for _, n := range root.flatten() {
+			vb.WriteString(vfSafeDet(n.detector, hdr, lim)[:1])
+		}
+		return fmt.Sprintf("xwalk %s %s %d %s %s => %s", f[1], f[2], lim, strings.ReplaceAll(vfDumpTree(), " ", "_"), vb.String(), res), true
+	case "xlookup": // xlookup script namehex
+		if vfBuiltin == nil {
+			vfBuiltin = vfSnapshot()
+		}
+		vfBuiltin.restore()
+		defer vfBuiltin.restore()
+		if err := vfApplyScript(f[1]); err != nil {
+			return op + " => BADSCRIPT", true
+		}
+		m := Lookup(string(vfUnhex(f[2])))
+		var par *MIME
+		if m != nil {
+			par = m.Parent()
+		}
+		return fmt.Sprintf("xlookup %s %s => %s %s", f[1], f[2], vfMIMEStr(m), vfMIMEStr(par)), true
+	}
+	return vfExecMore2(f, op)
+}
+
+// ---------- generators ----------
+
+func (g *vfGen) runMore(slice string) bool {
+	switch slice {
+	case "C03":
+		g.genC03()
+	case "C14":
+		g.genC14()
+	default:
+		return g.runMore2(slice)
+	}
+	return true
+}
+
+func (g *vfGen) overlayInputs() [][]byte {
+	corpus := vfCorpus()
+	var small [][]byte
+	for _, c := range corpus {
+		if len(c) <= 4096 {
+			small = append(small, c)
+		}
+	}
+	var out [][]byte
+	n := g.pick(300, 6000)
+	for i := 0; i < n; i++ {
+		a := small[g.rng.Intn(len(small))]
+		b := small[g.rng.Intn(len(small))]
+		switch g.rng.Intn(4) {
+		case 0: // a then b
+			out = append(out, append(append([]byte{}, a...), b...))
+		case 1: // b written over the tail of a padded header
+			m := append([]byte{}, a...)
+			for len(m) < len(b) {
+				m = append(m, 0)
+			}
+			off := g.rng.Intn(len(m) + 1)
+			m = append(m[:off], b...)
+			out = append(out, m)
+		case 2: // byte-wise merge: take b where a is zero
+			m := append([]byte{}, a...)
+			for i := range b {
+				if i >= len(m) {
+					m = append(m, b[i])
+				} else if m[i] == 0 {
+					m[i] = b[i]
+				}
+			}
+			out = append(out, m)
+		default: // text carrier with a embedded
+			t := g.textBytes(g.rng.Intn(40))
+			out = append(out, append(t, a...))
+		}
+	}
+	return out
+}
+
+func (g *vfGen) randomScript(maxCalls int, inputs [][]byte) string {
+	n := 1 + g.rng.Intn(maxCalls)
+	// paths are valid at the time of the call: track child counts of a shadow tree
+	type sh struct{ kids []*sh }
+	var build func(m *MIME) *sh
+	build = func(m *MIME) *sh {
+		s := &sh{}
+		for _, c := range m.children {
+			s.kids = append(s.kids, build(c))
+		}
+		return s
+	}
+	shadow := build(root)
+	var calls []string
+	for i := 0; i < n; i++ {
+		// choose a node by random descent
+		path := []string{}
+		cur := shadow
+		depth := g.rng.Intn(5)
+		for d := 0; d < depth && len(cur.kids) > 0; d++ {
+			k := g.rng.Intn(len(cur.kids))
+			if g.rng.Intn(3) == 0 {
+				k = 0 // favour freshly added extensions (they sit in front)
+			}
+			path = append(path, strconv.Itoa(k))
+			cur = cur.kids[k]
+		}
+		p := "r"
+		if len(path) > 0 {
+			p = strings.Join(path, ".")
+		}
+		var pred string
+		switch g.rng.Intn(6) {
+		case 0:
+			pred = "always"
+		case 1:
+			pred = "never"
+		case 2:
+			pred = fmt.Sprintf("lenGt-%d", g.rng.Intn(64))
+		case 3:
+			in := inputs[g.rng.Intn(len(inputs))]
+			k := g.rng.Intn(len(in) + 1)
+			if k > 6 {
+				k = 6
+			}
+			pred = "prefix-" + vfHex(in[:k])
+		case 4:
+			in := inputs[g.rng.Intn(len(inputs))]
+			if len(in) > 2 {
+				o := g.rng.Intn(len(in) - 1)
+				pred = "contains-" + vfHex(in[o:o+2])
+			} else {
+				pred = "always"
+			}
+		default:
+			pred = "prefix-" + vfHex(g.bytes(1))
+		}
+		mime := fmt.Sprintf("application/x-verif-%d-%d", i, g.rng.Intn(1000))
+		if g.rng.Intn(8) == 0 {
+			mime = "text/plain" // extension re-using a built-in name
+		}
+		alias := "~"
+		if g.rng.Intn(2) == 0 {
+			alias = vfHex([]byte(fmt.Sprintf("application/x-verif-alias-%d", i)))
+			if g.rng.Intn(2) == 0 {
+				alias += "+" + vfHex([]byte(fmt.Sprintf("x-verif/second-%d", i)))
+			}
+		}
+		calls = append(calls, fmt.Sprintf("%s:%s:%s:%s:%s", p, pred, vfHex([]byte(mime)), vfHex([]byte(fmt.Sprintf(".v%d", i))), alias))
+		cur.kids = append([]*sh{{}}, cur.kids...)
+	}
+	return strings.Join(calls, ";")
+}
+
+// pathOf returns the child-index path walked by the real detectors for `in`.
+func vfPathOf(in []byte, lim uint32) []int {
+	hdr := vfHeader(in, lim)
+	var path []int
+	m := root
+	for {
+		next := -1
+		for i, c := range m.children {
+			if vfSafeDet(c.detector, hdr, lim) == "T" {
+				next = i
+				break
+			}
+		}
+		if next < 0 {
+			return path
+		}
+		path = append(path, next)
+		m = m.children[next]
+	}
+}
+
+// directed scripts: extend the nodes on the path an input actually walks (every depth),
+// with detectors that accept / reject that input, singly and stacked.
+func (g *vfGen) directedExt(inputs [][]byte, n int) {
+	specials := [][]byte{{}, {0}, []byte("a"), []byte(" "), []byte("PK\x03\x04"), []byte("{}"), []byte("<?xml version=\"1.0\"?><rss")}
+	for i := 0; i < n; i++ {
+		in := inputs[g.rng.Intn(len(inputs))]
+		if i < 40*len(specials) {
+			in = specials[i%len(specials)]
+		}
+		lim := []uint32{0, 3072}[g.rng.Intn(2)]
+		path := vfPathOf(in, lim)
+		d := g.rng.Intn(len(path) + 1)
+		p := "r"
+		if d > 0 {
+			var ps []string
+			for _, k := range path[:d] {
+				ps = append(ps, strconv.Itoa(k))
+			}
+			p = strings.Join(ps, ".")
+		}
+		preds := []string{"always", "never", fmt.Sprintf("lenGt-%d", len(in)), "lenGt-0"}
+		if len(in) > 0 {
+			preds = append(preds, "prefix-"+vfHex(in[:1+g.rng.Intn(min(len(in), 4))]))
+		}
+		var calls []string
+		k := 1 + g.rng.Intn(3)
+		for j := 0; j < k; j++ {
+			pr := preds[g.rng.Intn(len(preds))]
+			calls = append(calls, fmt.Sprintf("%s:%s:%s:%s:~", p, pr, vfHex([]byte(fmt.Sprintf("application/x-verif-d%d", j))), vfHex([]byte(".d"))))
+			if g.rng.Intn(3) == 0 {
+				// extend the extension just added (it is child 0 of p)
+				cp := "0"
+				if p != "r" {
+					cp = p + ".0"
+				}
+				calls = append(calls, fmt.Sprintf("%s:%s:%s:%s:~", cp, preds[g.rng.Intn(len(preds))], vfHex([]byte(fmt.Sprintf("application/x-verif-dd%d", j))), vfHex([]byte(".dd"))))
+			}
+		}
+		g.emit(vfOp("xwalk", strings.Join(calls, ";"), in, lim))
+	}
+}
+
+func (g *vfGen) genC03() {
+	ins := g.overlayInputs()
+	for _, in := range ins {
+		lims := []uint32{0, 3072, uint32(1 + g.rng.Intn(len(in)+1))}
+		g.emit(vfOp("walk", in, lims[g.rng.Intn(len(lims))]))
+	}
+	small := ins
+	if len(small) > 200 {
+		small = small[:200]
+	}
+	small = append(small, []byte{}, []byte{0}, []byte("a"))
+	dirIn := append(vfCorpus(), []byte{}, []byte{0}, []byte("a"), []byte(" "))
+	g.directedExt(dirIn, g.pick(1200, 20000))
+	for i := 0; i < g.pick(150, 3000); i++ {
+		sc := g.randomScript(6, small)
+		in := small[g.rng.Intn(len(small))]
+		g.emit(vfOp("xwalk", sc, in, []uint32{0, 3072, 64}[g.rng.Intn(3)]))
+	}
+}
+
+func (g *vfGen) genC14() {
+	corpus := vfCorpus()
+	var small [][]byte
+	for _, c := range corpus {
+		if len(c) <= 2048 {
+			small = append(small, c)
+		}
+	}
+	small = append(small, []byte{}, g.bytes(16), g.textBytes(30))
+	g.directedExt(small, g.pick(1500, 30000))
+	for i := 0; i < g.pick(400, 8000); i++ {
+		sc := g.randomScript(12, small)
+		for j := 0; j < 3; j++ {
+			in := small[g.rng.Intn(len(small))]
+			g.emit(vfOp("xwalk", sc, in, []uint32{0, 3072, 8}[g.rng.Intn(3)]))
+		}
+		// lookups of every registered extension name and alias, and of some built-ins
+		for _, c := range strings.Split(sc, ";") {
+			f := strings.Split(c, ":")
+			g.emit(vfOp("xlookup", sc, f[2]))
+			if f[4] != "~" {
+				for _, a := range strings.Split(f[4], "+") {
+					g.emit(vfOp("xlookup", sc, a))
+				}
+			}
+		}
+		g.emit(vfOp("xlookup", sc, []byte("application/zip")))
+		g.emit(vfOp("xlookup", sc, []byte("application/x-zip")))
+		g.emit(vfOp("xlookup", sc, []byte("no/such-type")))
+	}
+	g.emit(vfOp("xwalk", "~", []byte("plain"), 0))
+}
